@@ -10,7 +10,7 @@ from mc.ref import isa
 ID = "C01"
 LEVEL = "exploration"
 LEVEL_TEXT = ("Complete enumeration of the finite product mnemonic (all 92 ISA mnemonics) x 41 operand shapes (all legal "
-              "shapes and every malformed bracket/index combination) x size suffix x boundary values x letter case, plus "
+              "shapes and every malformed bracket/index combination, plus 20 operand texts with mismatched or unbalanced brackets) x size suffix x boundary values (and, with .b/.w, values beyond 24 bits) x letter case, plus "
               "operand-expression variants, each assembled as a one-instruction program by the real assembler and judged "
               "against an independent 65c816 opcode matrix: defined => exact bytes, undefined => rejected, supported set "
               "=> still accepted. The suite pins ~10 encodings; this decides every table cell.")
@@ -28,6 +28,11 @@ ASSUMPTIONS = ["ISA matrix in mc/ref/isa_matrix.py", "aliases jsr/jmp long and j
 VALUES_Q = [0x00, 0x12, 0xFF, 0x100, 0x1234, 0xFFFF, 0x10000, 0x123456, 0xFFFFFF]
 VALUES_T = sorted(set(VALUES_Q + [0x01, 0x7F, 0x80, 0xFE, 0x101, 0x7FFF, 0x8000, 0xFFFE, 0x10001, 0x7FFFFF, 0x800000,
                                   0xFFFFFE, 0xABCDEF, 0xABCD, 0xAB]))
+# values that need more than 24 bits: only with an explicit .b/.w suffix (truncation); .l / no suffix: no claim
+VALUES_BIG = [0x1000000, 0x12345678, 0xFFFFFFFF]
+# operand texts with mismatched or unbalanced brackets: no 65c816 operand shape, for any mnemonic
+MALFORMED = ["({v}]", "[{v})", "({v}],y", "[{v}),y", "({v},x]", "[{v},x)", "({v},s],y", "({v}", "{v})", "[{v}", "{v}]", "({v},x", "#({v}",
+             "({v})),y", "(({v}),y", "#{v})", "#{v}]", "({v}],x", "{v},x)", "{v},y]"]
 SUFFIXES = ["", ".b", ".w", ".l"]
 SUFW = {"": None, ".b": 1, ".w": 2, ".l": 3}
 SUPPORTED_PATH = os.path.join(os.path.dirname(os.path.dirname(__file__)), "ref", "c01_supported.json")
@@ -129,7 +134,8 @@ def run_lit(mn, style, tier, collect=None):
     for shape in isa.ALL_SHAPES:
         for suffix in SUFFIXES:
             sfx = suffix.upper() if upper else suffix
-            for value in (vals if shape is not None else [None]):
+            big = VALUES_BIG if (shape is not None and suffix in (".b", ".w")) else []
+            for value in ((vals + big) if shape is not None else [None]):
                 if shape is None:
                     src = f"{m}{sfx}"
                 else:
@@ -147,6 +153,19 @@ def run_lit(mn, style, tier, collect=None):
                         collect.add((mn, "implied", None))
                 if example is None and tag == "defined-accepted":
                     example = {"source": src, "blocks": out.brief()}
+    for tmpl in MALFORMED:
+        for value in (0x12, 0x1234):
+            src = f"{m} {tmpl.format(v=hexlit(value, upper))}"
+            out = impl.assemble(src)
+            n += 1
+            if out.accepted:
+                viol.append({"key": f"isa:malformed-operand-accepted:{mn} {tmpl.format(v='v')}",
+                             "msg": f"`{src}` has unbalanced / mismatched brackets but was assembled: {out.brief()}"})
+                outcomes.add("MALFORMED-ACCEPTED")
+            elif out.status == "timeout":
+                viol.append({"key": "isa:timeout", "msg": f"`{src}` did not terminate"})
+            else:
+                outcomes.add("malformed-rejected")
     return {"evals": n, "nt_count": nt, "outcome": sorted(outcomes), "violations": viol[:40], "example": example}
 
 
@@ -164,6 +183,9 @@ EXPR_FORMS = [
     ("negative", lambda v, w: f"0-{256 ** w - v}" if w < 3 and v > 0 else None),        # explicit suffix only: two's complement truncation
     ("negative-unary", lambda v, w: f"-{256 ** w - v}" if w < 3 and v > 0 else None),
     ("constant", None),
+    # constants spelled like register names are ordinary symbols in operand position
+    ("constant-named-a", "name:a"), ("constant-named-A", "name:A"), ("constant-named-x", "name:x"), ("constant-named-y", "name:y"),
+    ("constant-named-s", "name:s"),
     ("macro-twice", "macro"),
     ("after-rep", "prefix:rep #0x30\nlda.w #0x0010\nldx.w #0x0010\nrts\n:c230a91000a2100060"),
     ("after-sep", "prefix:sep #0x30\nlda.b #0x10\nrts\n:e230a91060"),
@@ -220,9 +242,9 @@ def run_expr(mn, tier):
                     else:
                         outcomes.add("expr-after-prefix-ok")
                     continue
-                if form is None:
-                    text = "kk"
-                    pre = f"kk := {hexlit(value, False)}\n"
+                if form is None or (isinstance(form, str) and form.startswith("name:")):
+                    text = "kk" if form is None else form[5:]
+                    pre = f"{text} := {hexlit(value, False)}\n"
                 else:
                     text = form(value, width)
                     if text is None:
